@@ -115,3 +115,29 @@ PROPS["C02"] = dict(
 )
 LEVEL_TEXT["C02"] = "Exhaustive enumeration of shaped bit vectors x tail states x every selection structure, parameter value and nesting order, every rank r compared with the reference position lists."
 TECHNIQUE["C02"] = "bounded-exhaustive enumeration of inputs x configurations against a linear-scan reference model"
+
+EF_RULE = "case = (monotone sequence, upper bound u, builder); families: (a) ALL non-decreasing sequences of length <= N over 0..=M x several u; (b) (n,u) split probes n*2^k-1, n*2^k, n*2^k+1 for all k plus 2^63-1, 2^63, MAX-1, MAX with values spread to end exactly at u, all-0 and all-u; (c) n=0 and n=1 for u in {0,1,5,2^40,MAX-1,MAX}; (d) l=0 duplicate runs crossing word boundaries; (e) 4096+-1 / 8192+-1 elements (inventory quantum of the default selectors); (f) two clusters 2^20 / 2^40 apart; every case is run on 5-7 selection back-ends; non-trivial = at least two distinct values"
+PROPS["C03"] = dict(
+    level="exploration",
+    engine="E1",
+    parts=[dict(bin="e1_ef", opts={"prop": "C03"})],
+    rule=EF_RULE + "; plus every invalid push (out of order, above u, (n+1)-th) after every prefix of every sequence with n <= 3",
+    alphabet="builders push / extend / From<slice> / concurrent set in every permutation of indices (n<=4); back-ends plain, EfSeq, EfDict, EfSeqDict, SelectZeroAdapt(SelectAdapt), SelectZeroAdaptConst<2,1>(SelectAdaptConst<2,1>), SelectZeroAdapt(Select9(Rank9)), SelectZeroSmall(SelectSmall(RankSmall<1,9>))",
+    bound={"quick": "N=4, M=9, 4 values of u; n<=12 in (b)", "thorough": "N=5, M=12, 6 values of u; n<=40 in (b); all run lengths 1..=200 in (d)"},
+    oracle="the sequence itself: len, get(i) all i, iter/into_iter with exact len() before every next, iter_from(k)/into_iter_from(k) for every k in 0..=n; an invalid push panics and the builder continues as if it had not happened",
+    assumptions=STRICT,
+)
+LEVEL_TEXT["C03"] = "Exhaustive enumeration of all short monotone sequences over a small universe plus boundary (n,u) probes over the whole usize range, on every builder and selection back-end, compared element by element with the input sequence."
+TECHNIQUE["C03"] = "bounded-exhaustive enumeration of inputs x builders x back-ends against the sequence as reference model"
+PROPS["C04"] = dict(
+    level="exploration",
+    engine="E1",
+    parts=[dict(bin="e1_ef", opts={"prop": "C04"})],
+    rule=EF_RULE,
+    alphabet="index_of, contains, succ, succ_strict, pred, pred_strict on every dictionary back-end; queries: every q in 0..=max+2 (neighbours of elements for large universes) plus u-1,u,u+1,u+2, u+2^k, 2u, 2^32, 2^32+1, 2^63, MAX-1, MAX",
+    bound={"quick": "same sequences as C03 quick", "thorough": "same sequences as C03 thorough"},
+    oracle="order-theoretic definitions evaluated by linear scan on the sorted Vec; with duplicates any index holding the returned value is accepted",
+    assumptions=STRICT,
+)
+LEVEL_TEXT["C04"] = "Exhaustive enumeration of sequences as in C03 with a query set covering the whole usize range (below the first element, at, between, above the last element, around u, far above u), each answer compared with its order-theoretic definition."
+TECHNIQUE["C04"] = "bounded-exhaustive enumeration of inputs x boundary-value queries against order-theoretic definitions on a sorted Vec"
